@@ -13,21 +13,11 @@ import (
 // Evaluated on ObjectSet / ClusterObjectSet passes whose owner was read active (not paused,
 // archived or deleting).
 type C03Monitor struct {
-	// Probes per ObjectSet name (reference form).
-	ProbesOf func(r *Runner, ownerName string) []refmodel.RObjectSetProbe
 	// Stats
 	NontrivialPasses int
 	Passes           int
 }
 
-func probesFromSets(r *Runner, name string) []refmodel.RObjectSetProbe {
-	for _, s := range r.Sets {
-		if s.Name == name {
-			return s.Spec.Probes
-		}
-	}
-	return nil
-}
 
 // phaseFails computes, from the states the pass observed, whether the phase fails its gate.
 func phaseFails(r *Runner, pv *PassView, ph PhaseView, ownerName, ownerNS string, probes []refmodel.RObjectSetProbe, cluster bool) bool {
@@ -69,10 +59,7 @@ func (m *C03Monitor) AfterPass(r *Runner, pv *PassView) error {
 	ownerName := kubesim.MetaString(pv.Owner, "name")
 	ownerNS := kubesim.MetaString(pv.Owner, "namespace")
 	phases := OwnerPhases(r.W.Store, pv.Owner)
-	probes := probesFromSets(r, ownerName)
-	if m.ProbesOf != nil {
-		probes = m.ProbesOf(r, ownerName)
-	}
+	probes := r.ProbesFor(pv.Owner)
 	m.Passes++
 	// phase index per key, incl. the ObjectSetPhase object of delegated phases
 	phaseOf := map[kubesim.Key]int{}
